@@ -1,9 +1,6 @@
 package c09
 
-import (
-	"os"
-	"strings"
-)
+import "strings"
 
 // Reference model (written from CSS 2.1 §9.2, §9.7, §17.2.1, css-display-3 §2, css-flexbox-1 §4,
 // css-grid §6.1; shares no code with /repo).  It answers, for the generator's tree:
@@ -289,72 +286,6 @@ func textShown(e *einfo, rootNone bool) bool {
 // isFlexOrGrid: computed display establishing a flex or grid container.
 func isFlexContainerDisplay(d string) bool { return d == "flex" || d == "inline-flex" }
 func isGridContainerDisplay(d string) bool { return d == "grid" || d == "inline-grid" }
-
-// knownDefect returns a non-empty reason when the document contains a feature combination on which
-// the unchanged tree is known to deviate (see notes/C09.md, findings/C09/).  Such documents are kept
-// out of the workload so that nothing else is masked.
-func knownDefect(root *Node) string {
-	if os.Getenv("C09_GUARD") == "off" { // development only: shows what the guards hide
-		return ""
-	}
-	byID, list, _ := buildModel(root)
-	for _, e := range list {
-		n := e.n
-		sd := specifiedDisplay(n)
-		// D2: §9.7 blockification of inline-table / inline-flex / inline-grid yields block.
-		if (isOutOfFlow(n) || e.parent == nil) && (sd == "inline-table" || sd == "inline-flex" || sd == "inline-grid") {
-			return "D2 blockified " + sd
-		}
-		for _, p := range []*Pseudo{n.Before, n.After} {
-			if p != nil && p.Float != "" {
-				if d := canon(p.Disp); d == "inline-table" || d == "inline-flex" || d == "inline-grid" {
-					return "D2 blockified " + d + " pseudo-element"
-				}
-			}
-		}
-		if !e.shown {
-			continue
-		}
-		// D3: white space that is the only content of a table, row group or row is kept and ends up
-		// as an empty anonymous cell (rule 1.3 is only applied when there are two children or more).
-		if isTabularContainer(e.cd) && !e.replaced && !pseudoShown(e, n.Before, false) && !pseudoShown(e, n.After, false) {
-			ws, other := 0, 0
-			for _, k := range n.Kids {
-				switch {
-				case k.isText() && isSpace(k.Text):
-					ws++
-				case k.isText():
-					other++
-				default:
-					if ke := byID[k.ID]; ke.shown && !(k.Tag == "img" && !ke.replaced && k.Attrs["alt"] == "") {
-						other++
-					}
-				}
-			}
-			if ws > 0 && other == 0 {
-				return "D3 white space only in " + e.cd
-			}
-		}
-		// D1: a flex container silently drops children that are table-internal boxes.
-		if isFlexContainerDisplay(e.cd) && !e.replaced {
-			for _, k := range n.Kids {
-				if k.isText() {
-					continue
-				}
-				kd := specifiedDisplay(k)
-				if !isOutOfFlow(k) && isTableInternal(kd) {
-					return "D1 flex container with " + kd + " child"
-				}
-			}
-			for _, p := range []*Pseudo{n.Before, n.After} {
-				if p != nil && isTableInternal(pseudoDisplay(p)) {
-					return "D1 flex container with " + p.Disp + " pseudo-element"
-				}
-			}
-		}
-	}
-	return ""
-}
 
 func isTabularContainer(d string) bool {
 	switch d {
